@@ -17,6 +17,7 @@ ALL12 = sorted(k for k in CFGS if k.startswith("c_"))
 
 UNITS = {
     "bdd": dict(vspec="bdd.vspec"),
+    "iters": dict(vspec="iters.vspec"),
 }
 
 COMMON_ASSUME = [
@@ -63,4 +64,9 @@ PROPS = {
         units=dict(quick=BDD_QUICK, thorough=[("bdd", c) for c in ALL12 if c.endswith("f")]), probes=dict(quick=BDD_PROBES, thorough=BDD_PROBES), depends=[],
         assumptions=COMMON_ASSUME + ["crossbeam_channel is modelled by an opaque stub with a prophetic message sequence msg(chan,k): FIFO, lossless, duplication-free for one Sender and one Receiver on a fresh channel; send/try_recv are atomic (speclib/stubs_crossbeam.rs) - ASSUMED, no thread interleaving is explored", "set_sender/set_receiver on a non-fresh store (the documented 'Attention' cases) are outside the precondition"],
         explanation="producer invariant (part of wf(), preserved by node and hence by every operation): nodes[k+2] == msg(c,k) for all k < sent and len == sent+2; receiver invariant (recv loop): nodes[k+2] == msg(c,k) for k < recvd, len == recvd+2, every received node forwarded in order when a sender is present (relay_inv); recv returns true iff term < final len; both invariants are local to one party and mention only msg, so every interleaving of atomic channel operations preserves both; lemma_mirror / lemma_relay compose them"),
+    "C20": dict(
+        units=[("iters", "default")], probes=dict(quick=[("iters", "default")], thorough=[("iters", "default")]), depends=[],
+        assumptions=[COMMON_ASSUME[0], COMMON_ASSUME[1], "slice-to-Vec `.into()`, `bool::then_some` are outlined std expressions with assumed textbook specs", "64-bit target"],
+        explanation="lowered real text of both iterators' new/next/decrement/decrement_vec: indexes = the undecided positions in descending order (und_range), two-valued: first call yields the stored all-BOT completion (counter value 0), every later call the binary successor over indexes (val2 + 1, step2), None exactly after the all-TOP vector (value 2^k - 1), positions outside indexes untouched (same_outside); three-valued: state in {0,1,2}^k starting all-2 (decodes to the interpretation itself, lemma_dec3_all2), decrement_vec is the ternary predecessor (val3 - 1, false exactly at 0 with the vector unchanged), next returns dec3(original, indexes, state). Enumeration lemmas: counter value determines the vector (lemma_val2_inj / lemma_val3_inj, lemma_dec3_inj), every completion / refinement is the image of a value in range (lemma_completion_reached, lemma_refinement_reached, bounds 2^k / 3^k), so unit steps over the full range visit each exactly once",
+        not_decided=["the composition 'unit steps from 0 to 2^k-1 visit every value once' is arithmetic over the step contracts and is argued in DESIGN, not a machine-checked trace lemma"]),
 }
